@@ -122,3 +122,86 @@ def expected_atoms(state):
     """Atom names the topology defines for a state-qualified canonical name."""
     _aa, _na, _p, canonical = T.load()
     return [a for a in canonical[state].atoms if a not in ("N+1", "C-1")]
+
+
+# ---------------------------------------------------------------------------
+# chain layouts
+# ---------------------------------------------------------------------------
+LAYOUTS = ["one", "two", "three", "blank_ter", "same_id_oxt", "lower",
+           "neg", "high", "gap", "icode", "descending", "water_tail",
+           "hetero_tail", "hidden_end"]
+
+
+def build_layout(layout, x, *, oxt=True):
+    """Return (atoms, info, n_chain_ends) for a chain layout with residue x at
+    every chain end.  info entries as in build_host plus 'end' in
+    {None,'n','c'} (harness knowledge of real chain ends)."""
+    chains = []  # (seq, chain_id, numbers, icodes, shift)
+    seq = [x, "ALA", x]
+
+    def nums(start):
+        return [start, start + 1, start + 2]
+
+    if layout == "one":
+        chains = [(seq, "A", nums(1), None)]
+    elif layout == "two":
+        chains = [(seq, "A", nums(1), None), (seq, "B", nums(1), None)]
+    elif layout == "three":
+        chains = [(seq, "A", nums(1), None), (seq, "B", nums(11), None),
+                  (seq, "C", nums(21), None)]
+    elif layout == "blank_ter":
+        chains = [(seq, "", nums(1), None), (seq, "", nums(11), None)]
+    elif layout == "same_id_oxt":
+        chains = [(seq, "A", nums(1), None), (seq, "A", nums(11), None)]
+    elif layout == "lower":
+        chains = [(seq, "a", nums(1), None), (seq, "b", nums(1), None)]
+    elif layout == "neg":
+        chains = [(seq, "A", nums(-3), None)]
+    elif layout == "high":
+        chains = [(seq, "A", nums(9997), None)]
+    elif layout == "gap":
+        chains = [(seq, "A", [1, 2, 40], None)]
+    elif layout == "icode":
+        chains = [(seq, "A", [10, 10, 10], ["", "A", "B"])]
+    elif layout == "descending":
+        chains = [(seq, "A", [5, 4, 3], None)]
+    elif layout in ("water_tail", "hetero_tail"):
+        chains = [(seq, "A", nums(1), None)]
+    elif layout == "hidden_end":
+        chains = [(seq, "A", nums(1), None), (seq, "A", nums(4), None)]
+    else:
+        raise ValueError(layout)
+    atoms, info = [], []
+    for ci, (s, cid, numbers, icodes) in enumerate(chains):
+        part = build.build_peptide(s, chain=cid, numbers=numbers,
+                                   icodes=icodes, oxt=oxt,
+                                   origin=(0.0, 0.0, 18.0 * ci))
+        if layout == "hidden_end":
+            for a in part:
+                a["_noter"] = True
+        atoms += part
+        for i, name in enumerate(s):
+            info.append({"kind": "aa", "input": name,
+                         "position": "n" if i == 0 else "c" if i == len(s) - 1
+                         else "mid", "chain": cid, "res_seq": numbers[i],
+                         "icode": icodes[i] if icodes else "",
+                         "chain_index": ci})
+    if layout == "water_tail":
+        w = build.water((9.0, 9.0, 9.0), 4, chain="A")
+        atoms.append(w)
+        info.append({"kind": "wat", "input": "HOH", "position": None,
+                     "chain": "A", "res_seq": 4, "icode": ""})
+    if layout == "hetero_tail":
+        atoms.append(build.BAtom(name="ZN", res_name="ZN", chain="A",
+                                 res_seq=4, icode="",
+                                 xyz=np.array([12.0, 9.0, 9.0]),
+                                 record="HETATM", res_idx=-1))
+        info.append({"kind": "het", "input": "ZN", "position": None,
+                     "chain": "A", "res_seq": 4, "icode": ""})
+    return atoms, info, 2 * len(chains)
+
+
+def layout_text(layout, atoms):
+    if layout == "hidden_end":
+        return build.pdb_text(atoms, ter=False)
+    return build.pdb_text(atoms)
